@@ -277,6 +277,68 @@ theorem response_poly (sc : ExScene ℝ) (K : Nat) (g w : Nat → ℝ) (binR : N
   intro j _
   rw [specEtc, list_range_map_sum, Finset.sum_mul, Finset.mul_sum]
 
+/-- **Source/receiver reciprocity, conditional bin hypothesis.**  Same as `reciprocity` below,
+  but the bin identity `bin0A i + binRB j = bin0B j + binRA i` is only required for patches with
+  `uA i ≠ 0` and `uB j ≠ 0`: for a patch invisible from a position the model stores a zero
+  point-to-patch distance, so the identity may fail there, but every chain through such an end
+  carries the factor `uA i` or `uB j` `= 0` on both sides. -/
+theorem reciprocity_cond
+    (scA scB : ExScene ℝ)
+    (hP : scB.P = scA.P) (hS : scB.S = scA.S) (hDA : scA.D = 1) (hDB : scB.D = 1)
+    (hpairs : scB.pairs = scA.pairs) (hbin : scB.bin = scA.bin) (hfft : scB.fft = scA.fft)
+    (hdirA : ∀ i j, scA.dir i j = 0) (hdirB : ∀ i j, scB.dir i j = 0)
+    (hnodup : scA.pairs.Nodup) (hlt : ∀ p ∈ scA.pairs, p.1 < p.2 ∧ p.2 < scA.P)
+    (hbinsym : ∀ i j, scA.bin i j = scA.bin j i)
+    (κ : Nat → Nat → ℝ) (area ρ : Nat → ℝ) (hκ : ∀ i j, κ i j = κ j i) (harea : ∀ i, area i ≠ 0)
+    (hform : ∀ i j, scA.fft i j 0 = κ i j / area i * ρ j)
+    (uA uB : Nat → ℝ) (c₁ c₂ : ℝ)
+    (he0A : ∀ j, scA.e0 j 0 = c₁ * uA j * ρ j) (he0B : ∀ j, scB.e0 j 0 = c₁ * uB j * ρ j)
+    (gA wA gB wB : Nat → ℝ)
+    (hrA : ∀ j, gA j * wA j = c₂ * uA j / area j) (hrB : ∀ j, gB j * wB j = c₂ * uB j / area j)
+    (binRA binRB : Nat → Nat)
+    (hbins : ∀ i j, uA i ≠ 0 → uB j ≠ 0 → scA.bin0 i + binRB j = scB.bin0 j + binRA i)
+    (K t : Nat) (ht : t < scA.S) :
+    monoCurve scA K gB wB binRB t = monoCurve scB K gA wA binRA t := by
+  have _ := hnodup
+  have _ := harea
+  have harcs : scB.arcs = scA.arcs := by unfold ExScene.arcs; rw [hpairs]
+  have hltA : ∀ a ∈ scA.arcs, a.1 < scA.P ∧ a.2 < scA.P := arcsOf_lt scA.pairs scA.P hlt
+  have hwfA : scA.WF := fun a ha => ⟨(hltA a ha).1, (hltA a ha).2, by rw [hdirA, hDA]; exact Nat.one_pos⟩
+  have hwfB : scB.WF := fun a ha => by
+    rw [harcs] at ha
+    rw [hP, hdirB, hDB]
+    exact ⟨(hltA a ha).1, (hltA a ha).2, Nat.one_pos⟩
+  have hformB : ∀ i j, scB.fft i j 0 = κ i j / area i * ρ j := by rw [hfft]; exact hform
+  rw [monoCurve_eq_coeff scA hwfA hDA K gB wB binRB t ht,
+    monoCurve_eq_coeff scB hwfB hDB K gA wA binRA t (by rw [hS]; exact ht)]
+  congr 1
+  rw [response_poly, response_poly]
+  apply Finset.sum_congr rfl
+  intro k _
+  rw [response_order scA hwfA hdirA κ area ρ hform uA c₁ he0A uB c₂ gB wB hrB binRB k,
+    response_order scB hwfB hdirB κ area ρ hformB uB c₁ he0B uA c₂ gA wA hrA binRA k,
+    hP, harcs, hbin]
+  congr 1
+  rw [Finset.sum_comm]
+  apply Finset.sum_congr rfl
+  intro i _
+  apply Finset.sum_congr rfl
+  intro j _
+  have hsym := green_symm scA.P (arcKer scA.arcs scA.bin κ) (nodeW area ρ)
+    (arcKer_symm scA.pairs scA.bin κ hbinsym hκ)
+    (arcKer_out scA.arcs scA.bin κ scA.P hltA) k i j
+  rw [hsym]
+  generalize green scA.P (arcKer scA.arcs scA.bin κ) (nodeW area ρ) k j i = Gv
+  by_cases hA : uA i = 0
+  · simp [hA]
+  by_cases hB : uB j = 0
+  · simp [hB]
+  have hX : X ^ binRB j * X ^ scA.bin0 i = (X ^ binRA i * X ^ scB.bin0 j : ℝ[X]) := by
+    rw [← pow_add, ← pow_add, add_comm, hbins i j hA hB, add_comm]
+  calc C (uB j) * X ^ binRB j * (C (uA i) * X ^ scA.bin0 i) * Gv
+      = C (uB j) * C (uA i) * (X ^ binRB j * X ^ scA.bin0 i) * Gv := by ring
+    _ = C (uA i) * X ^ binRA i * (C (uB j) * X ^ scB.bin0 j) * Gv := by rw [hX]; ring
+
 /-- **Source/receiver reciprocity** of the discrete model.
 
   Two runs in the same room: `scA` (source at A, received at B with weights `gB wB binRB`)
@@ -312,40 +374,8 @@ theorem reciprocity
     (hbins : ∀ i j, scA.bin0 i + binRB j = scB.bin0 j + binRA i)
     (K t : Nat) (ht : t < scA.S) :
     monoCurve scA K gB wB binRB t = monoCurve scB K gA wA binRA t := by
-  have _ := hnodup
-  have _ := harea
-  have harcs : scB.arcs = scA.arcs := by unfold ExScene.arcs; rw [hpairs]
-  have hltA : ∀ a ∈ scA.arcs, a.1 < scA.P ∧ a.2 < scA.P := arcsOf_lt scA.pairs scA.P hlt
-  have hwfA : scA.WF := fun a ha => ⟨(hltA a ha).1, (hltA a ha).2, by rw [hdirA, hDA]; exact Nat.one_pos⟩
-  have hwfB : scB.WF := fun a ha => by
-    rw [harcs] at ha
-    rw [hP, hdirB, hDB]
-    exact ⟨(hltA a ha).1, (hltA a ha).2, Nat.one_pos⟩
-  have hformB : ∀ i j, scB.fft i j 0 = κ i j / area i * ρ j := by rw [hfft]; exact hform
-  rw [monoCurve_eq_coeff scA hwfA hDA K gB wB binRB t ht,
-    monoCurve_eq_coeff scB hwfB hDB K gA wA binRA t (by rw [hS]; exact ht)]
-  congr 1
-  rw [response_poly, response_poly]
-  apply Finset.sum_congr rfl
-  intro k _
-  rw [response_order scA hwfA hdirA κ area ρ hform uA c₁ he0A uB c₂ gB wB hrB binRB k,
-    response_order scB hwfB hdirB κ area ρ hformB uB c₁ he0B uA c₂ gA wA hrA binRA k,
-    hP, harcs, hbin]
-  congr 1
-  rw [Finset.sum_comm]
-  apply Finset.sum_congr rfl
-  intro i _
-  apply Finset.sum_congr rfl
-  intro j _
-  have hsym := green_symm scA.P (arcKer scA.arcs scA.bin κ) (nodeW area ρ)
-    (arcKer_symm scA.pairs scA.bin κ hbinsym hκ)
-    (arcKer_out scA.arcs scA.bin κ scA.P hltA) k i j
-  rw [hsym]
-  have hX : X ^ binRB j * X ^ scA.bin0 i = (X ^ binRA i * X ^ scB.bin0 j : ℝ[X]) := by
-    rw [← pow_add, ← pow_add, add_comm, hbins, add_comm]
-  generalize green scA.P (arcKer scA.arcs scA.bin κ) (nodeW area ρ) k j i = Gv
-  calc C (uB j) * X ^ binRB j * (C (uA i) * X ^ scA.bin0 i) * Gv
-      = C (uB j) * C (uA i) * (X ^ binRB j * X ^ scA.bin0 i) * Gv := by ring
-    _ = C (uA i) * X ^ binRA i * (C (uB j) * X ^ scB.bin0 j) * Gv := by rw [hX]; ring
+  exact reciprocity_cond scA scB hP hS hDA hDB hpairs hbin hfft hdirA hdirB hnodup hlt hbinsym
+    κ area ρ hκ harea hform uA uB c₁ c₂ he0A he0B gA wA gB wB hrA hrB binRA binRB
+    (fun i j _ _ => hbins i j) K t ht
 
 end Sparrow
